@@ -385,7 +385,9 @@ impl Display for Value {
             | Value::Dict(_)
             | Value::Grid(_) => match self.to_zinc_string() {
                 Ok(zinc) => f.write_str(&zinc),
-                Err(_) => Err(std::fmt::Error),
+                // No Zinc text (a timestamp whose local time is out of range): show the debug form
+                // instead of failing, as `to_string()` panics when `Display` returns an error.
+                Err(_) => write!(f, "{self:?}"),
             },
         }
     }
